@@ -491,6 +491,12 @@ struct verdict {
 	const char *why;
 };
 
+/* 1012..1014 were registered with IANA after RFC 6455: accepting or refusing them is not judged */
+static bool close_code_unjudged(int code)
+{
+	return code >= 1012 && code <= 1014;
+}
+
 static bool close_code_invalid(int code)
 {
 	if (code >= 1000 && code <= 1003) {
@@ -564,6 +570,8 @@ static struct verdict classify(const struct wsf *f)
 			v.codes[0] = 1002;
 			v.codes[1] = 1007;
 			v.why = "close frame with invalid code / non-UTF-8 reason";
+		} else if (f->declared >= 2 && f->payload == WP_CLOSE && close_code_unjudged(f->close_code)) {
+			v.why = "close frame with a status code registered after RFC 6455 (any close frame)";
 		} else if (f->declared >= 2 && close_code_invalid(f->payload == WP_CLOSE ? f->close_code : ('a' << 8 | 'a'))) {
 			v.codes[0] = 1002;
 			v.why = "close frame with an invalid status code";
@@ -622,7 +630,21 @@ static void run_frames(int section)
 	struct wsf fr[3];
 	int nf = section - 3;
 	int delivery = 0;
-	if (nf == 1) {
+	if (section == 7) {
+		/* every close status code (quick: the codes around every boundary of the valid ranges; param allcodes=1: all 65536), with and
+		 * without a reason text */
+		static const int EDGES[] = {0, 1, 2, 255, 256, 998, 999, 1000, 1001, 1002, 1003, 1004, 1005, 1006, 1007, 1008, 1009, 1010, 1011, 1012, 1013, 1014, 1015, 1016, 1017, 1099, 1100, 1999, 2000, 2998, 2999, 3000, 3001, 3999, 4000, 4998, 4999, 5000, 5001, 9999, 32767, 32768, 49280, 65534, 65535};
+		int code;
+		if (xp_param("allcodes", 0)) {
+			code = xp_choose(256, XP_SCENARIO, "close-code-high-byte") * 256;
+			code += xp_choose(256, XP_SCENARIO, "close-code-low-byte");
+		} else {
+			code = EDGES[xp_choose((int)(sizeof(EDGES) / sizeof(EDGES[0])), XP_SCENARIO, "close-code")];
+		}
+		int reason = xp_choose(2, XP_SCENARIO, "reason");
+		nf = 1;
+		fr[0] = (struct wsf){.opcode = 8, .fin = true, .rsv = 0, .mask = true, .lenenc = 0, .declared = reason ? 7 : 2, .payload = WP_CLOSE, .close_code = code, .name = "close-code-sweep"};
+	} else if (nf == 1) {
 		int idx = xp_choose(wsf_product_size(), XP_SCENARIO, "frame");
 		if (!wsf_product(idx, &fr[0])) {
 			xp_end_run();
@@ -795,7 +817,7 @@ static void run_frames(int section)
 	xp_nontrivial();
 	xp_transition();
 	xp_outcome(hash_mix(hash64(sim_conn_output(Ac)->p, sim_conn_output(Ac)->len, 3), (uint64_t)sim_conn_closed_by_daemon(Ac)));
-	xp_state(hash_mix(hash64(desc, strlen(desc), 1), (uint64_t)delivery));
+	xp_state(hash_mix(hash64(desc, strlen(desc), 1), (uint64_t)delivery + 2 * (uint64_t)(section == 7 ? fr[0].close_code + 1 : 0)));
 }
 
 static void run(void)
@@ -823,6 +845,6 @@ const struct driver drv_c12 = {
     .name = "c12",
     .property = "C12",
     .run = run,
-    .rule = "section 0: handshake product Upgrade(4) x Connection(5) x Key(5) x Version(5) x Protocol(9) x target(2) x HTTP version(2) x header order/case(3), reference predicate 'valid RFC 6455 upgrade offering jet' => 101 + accept digest recomputed by the harness + 'Sec-WebSocket-Protocol: jet'; wrong target / HTTP 1.0 => never 101; anything else: 101 or error status or close (leniently upgraded invalid requests are counted, not judged); section 1: every single message, every ordered pair and the whole of a 24-message session sent as websocket text messages, JSON output on every connection equal to the raw-transport twin; section 2: get/fetch over 0..200 states of 1..400 bytes (server frames across the 126 and 65536 boundaries), decoder demands unmasked, FIN, minimal length encoding, content equal to the raw twin; section 3: ping of every length 0..125 x 4 mask keys x 8 read-buffer alignments => exactly one pong with identical payload; sections 4-6: single-frame product, ordered pairs over 26 frames, ordered triples over 10 frames, x {one readiness event per frame, one read}, judged per frame by an RFC 6455 classifier (unmasked / RSV / reserved opcode / fragmented or >125 control / bad sequence => close 1002; close payload rules => 1002/1007/echo; ping => pong; binary => close; non-UTF-8 text => 1007; request => response; fragments and other text => processed or close frame); deviation budget 1: every split point of the client bytes (first 40 for frames)",
+    .rule = "section 0: handshake product Upgrade(4) x Connection(5) x Key(5) x Version(5) x Protocol(9) x target(2) x HTTP version(2) x header order/case(3), reference predicate 'valid RFC 6455 upgrade offering jet' => 101 + accept digest recomputed by the harness + 'Sec-WebSocket-Protocol: jet'; wrong target / HTTP 1.0 => never 101; anything else: 101 or error status or close (leniently upgraded invalid requests are counted, not judged); section 1: every single message, every ordered pair and the whole of a 24-message session sent as websocket text messages, JSON output on every connection equal to the raw-transport twin; section 2: get/fetch over 0..200 states of 1..400 bytes (server frames across the 126 and 65536 boundaries), decoder demands unmasked, FIN, minimal length encoding, content equal to the raw twin; section 3: ping of every length 0..125 x 4 mask keys x 8 read-buffer alignments => exactly one pong with identical payload; sections 4-6: single-frame product, ordered pairs over 26 frames, ordered triples over 10 frames, x {one readiness event per frame, one read}, judged per frame by an RFC 6455 classifier (unmasked / RSV / reserved opcode / fragmented or >125 control / bad sequence => close 1002; close payload rules => 1002/1007/echo; ping => pong; binary => close; non-UTF-8 text => 1007; request => response; fragments and other text => processed or close frame); section 7: a close frame with every status code around the boundaries of the valid ranges (45 codes; thorough: all 65536) with and without a reason: 0-999, 1004-1006, 1015-2999 and >= 5000 => close 1002, 1000-1003 / 1007-1011 / 3000-4999 => echoed or 1000, 1012-1014 unjudged; deviation budget 1: every split point of the client bytes (first 40 for frames)",
     .assumptions = "frames larger than the daemon's read buffer may be refused by dropping the connection (RFC 6455 leaves the status open)|a valid close frame may be echoed with the received code or with 1000|text messages whose payload is not the reference request are judged by the transparency section, not by the classifier",
 };
